@@ -9,8 +9,8 @@ ID = "C30"
 ENGINE = "B"
 TECHNIQUE = "cycle driver + trigger-history model (readiness derived from the raw trigger history)"
 RULE = (
-    "case = (component InputSampler|OutputBuffer, edge, polarity, synchronize - all 16 combinations, layout of 1-2 "
-    "fields of 1..8 bits, history: per cycle the raw trigger bit (drawn as run lengths 1..4 so that both fast toggles "
+    "case = (component InputSampler|OutputBuffer, edge, polarity, synchronize - all 16 combinations, layout of 0-2 "
+    "fields of 1..8 bits (the empty layout = a plain event input), history: per cycle the raw trigger bit (drawn as run lengths 1..4 so that both fast toggles "
     "and held levels occur, random initial level), the raw data word (sampler) and whether get/put is requested "
     "(mostly yes) with the put argument); model: s[t]=r[t-1] (s[0]=0) if synchronize else r[t]; p=s or not s by "
     "polarity; ready[t]=p[t] (level) or p[t] and not p[t-1] with p[-1] from s[-1]=0 (edge); non-trivial = requested "
@@ -36,7 +36,8 @@ def strategy(draw, tier="quick"):
     edge = draw(st.booleans())
     polarity = draw(st.booleans())
     synchronize = draw(st.booleans())
-    widths = draw(st.lists(st.integers(1, 8), min_size=1, max_size=2))
+    # an empty layout is a plain event input / output (a button): only the trigger matters
+    widths = draw(st.lists(st.integers(1, 8), min_size=0 if draw(st.integers(0, 3)) == 0 else 1, max_size=2))
     hi = 40 if tier == "quick" else 160
     n = draw(st.integers(4, hi))
     level = draw(st.integers(0, 1))
